@@ -113,6 +113,38 @@ def check(p, name, c):
         )
 
 
+def history_check(p, name, c):
+    """into_bench, then re-introduce a convertible gate under the label of a rewritten one, then into_bench again."""
+    if not c.inputs:
+        return
+    orig = rebuild(c)
+    rewritten = [l for l, g in orig.gates.items() if g.gate_type.name in ("LT", "LEQ", "GT", "GEQ", "ALWAYS_TRUE", "ALWAYS_FALSE")]
+    if not rewritten:
+        return
+    g = rewritten[0]
+    t = orig.gates[g].gate_type
+    src = (REPLAY_PRELUDE + circ.circ_src(orig) + f"\nfrom cirbo.core.circuit import gate as G\ng={g!r}\n"
+           "bad=[]\ntry:\n    c.into_bench(); c.rename_gate(g, g+'_old')\n"
+           f"    c.emplace_gate(g, G.{t.name}, {tuple(orig.gates[g].operands) or ()!r})\n    c.mark_as_output(g); c.into_bench()\n"
+           "    bad+=circ.wf_problems(c)\n    bad+=[x for x in {q.gate_type.name for q in c.gates.values()} if x in ('LT','LEQ','GT','GEQ','ALWAYS_TRUE','ALWAYS_FALSE')]\n"
+           "except Exception as e:\n    bad.append((type(e).__name__, str(e)))\nprint(bad); sys.exit(1 if bad else 0)\n")
+    p.case(("c14-history", circ.snapshot(orig)[:3]), sample=f"{name}: convert, rename {g}, re-add {t.name} as {g}, convert again" if len(p.samples) < 6 else None)
+    try:
+        c.into_bench()
+        c.rename_gate(g, g + "_old")
+        c.emplace_gate(g, t, tuple(orig.gates[g].operands))
+        c.mark_as_output(g)
+        c.into_bench()
+        probs = circ.wf_problems(c)
+        left = {q.gate_type.name for q in c.gates.values()} - ALLOWED
+        if left:
+            probs.append(f"types outside the bench basis remain: {sorted(left)}")
+    except Exception as e:  # noqa: BLE001
+        probs = [f"{type(e).__name__}: {e}"]
+    if probs:
+        p.violation(f"into_bench-history:{probs[0].split(' ')[0].split(':')[0]}", f"second conversion after re-adding {t.name} gate {g!r}: {probs[:2]} ({circ.describe(orig)})", src)
+
+
 def lemma_circuits():
     out = []
     for t in circgen.BINARY_ONLY:
@@ -130,11 +162,16 @@ def lemma_circuits():
     return out
 
 
+def lemma_circuits_by_name(name):
+    return dict(lemma_circuits())[name]
+
+
 def unit(p, item, tier, seed):
     kind, arg = item
     if kind == "lemma":
         for name, c in lemma_circuits():
             check(p, name, c)
+            history_check(p, name, rebuild(lemma_circuits_by_name(name)))
         for name, c in circgen.feature_circuits():
             check(p, "feature:" + name, c)
         # canary: a wrong rewrite (GT -> AND without the NOT) must be refuted by the same query
@@ -152,7 +189,10 @@ def unit(p, item, tier, seed):
             c = circgen.random_circuit(rnd, rnd.randint(1, 5), rnd.randint(1, maxg), max_arity=rnd.choice([2, 3, 4]),
                                        shuffle_storage=bool(i % 2))
             circgen.add_random_blocks(c, rnd)
+            c2 = rebuild(c)
             check(p, f"seeded[{s}:{i}]", c)
+            if i % 3 == 0:
+                history_check(p, f"seeded[{s}:{i}]", c2)
 
 
 def run(rep, tier, seed, only=None):
